@@ -26,7 +26,7 @@ inductive ErrClass
   | redisNil                  -- redis.Nil
   | sqlNoRows | sqlTxDone     -- sql.ErrNoRows, sql.ErrTxDone
   | sqlAcceptable             -- sqlx.acceptableError (e.g. a scan error on unmarshalling)
-  | custom                    -- an error the user-supplied sqlx `WithAcceptable` option accepts
+  | custom (i : Nat)          -- the error that the i-th user-supplied sqlx `WithAcceptable` option accepts (and no other)
   | other                     -- anything else
   deriving Repr, DecidableEq, Inhabited
 
@@ -50,6 +50,32 @@ DataLoss, Unimplemented, ResourceExhausted: false; default: true }` -/
 def codeAcceptable (c : Nat) : Bool :=
   !(c = cDeadlineExceeded ∨ c = cInternal ∨ c = cUnavailable ∨ c = cDataLoss ∨ c = cUnimplemented ∨ c = cResourceExhausted)
 
+/-- `errors.Is(err, <sentinel>)` for an error of this class; sentinels by their Go source names.  A gRPC status
+error is none of them (`status.Error` does not unwrap to a context error). -/
+def ErrClass.is (e : ErrClass) (sentinel : String) : Bool :=
+  if sentinel = "context.DeadlineExceeded" then e = .ctxDeadline
+  else if sentinel = "context.Canceled" then e = .ctxCanceled
+  else if sentinel = "breaker.ErrServiceUnavailable" then e = .brkOpen
+  else if sentinel = "red.Nil" then e = .redisNil
+  else if sentinel = "sql.ErrNoRows" then e = .sqlNoRows
+  else if sentinel = "sql.ErrTxDone" then e = .sqlTxDone
+  else false
+
+/-- `errors.As(err, &e)` with `e` of the named type -/
+def ErrClass.as (e : ErrClass) (ty : String) : Bool := ty = "acceptableError" && e = .sqlAcceptable
+
+/-- grpc code numbers by their names in google.golang.org/grpc/codes (outside /repo; the harness drives every
+number 0..17 through the real `status.Code`) -/
+def codeOfName (n : String) : Option Nat :=
+  if n = "codes.OK" then some 0 else if n = "codes.Canceled" then some 1 else if n = "codes.Unknown" then some 2
+  else if n = "codes.InvalidArgument" then some 3 else if n = "codes.DeadlineExceeded" then some 4
+  else if n = "codes.NotFound" then some 5 else if n = "codes.AlreadyExists" then some 6
+  else if n = "codes.PermissionDenied" then some 7 else if n = "codes.ResourceExhausted" then some 8
+  else if n = "codes.FailedPrecondition" then some 9 else if n = "codes.Aborted" then some 10
+  else if n = "codes.OutOfRange" then some 11 else if n = "codes.Unimplemented" then some 12
+  else if n = "codes.Internal" then some 13 else if n = "codes.Unavailable" then some 14
+  else if n = "codes.DataLoss" then some 15 else if n = "codes.Unauthenticated" then some 16 else none
+
 inductive Site
   | rest                -- BreakerHandler
   | zrpcClient          -- clientinterceptors.BreakerInterceptor
@@ -57,8 +83,8 @@ inductive Site
   | zrpcServerStream    -- serverinterceptors.StreamBreakerInterceptor
   | redisProcess        -- breakerHook.ProcessHook
   | redisPipeline       -- breakerHook.ProcessPipelineHook
-  | sqlx                -- commonSqlConn.ExecCtx / PrepareCtx / TransactCtx (predicate db.acceptable)
-  | sqlxQuery           -- commonSqlConn.queryRows (predicate scanFailed || db.acceptable)
+  | sqlx                -- commonSqlConn.ExecCtx / PrepareCtx / TransactCtx, statement.ExecCtx (predicate db.acceptable)
+  | sqlxQuery           -- commonSqlConn.queryRows, statement.queryRows (predicate scanFailed || db.acceptable)
   deriving Repr, DecidableEq, Inhabited
 
 /-- one request arriving at a site -/
@@ -66,16 +92,51 @@ structure SiteReq where
   err : ErrClass := .none     -- what the wrapped request returns (rest: ignored)
   code : Nat := 200           -- rest: the status code the next handler has written when it returns / panics
   panics : Bool := false      -- the wrapped request panics (after having written `code`)
-  scanFailed : Bool := false  -- sqlxQuery: the row scanner reported a failure
-  userAccepts : Bool := false -- sqlx: a `WithAcceptable` option is installed (it accepts exactly `.custom`)
+  fromScan : Bool := false    -- sqlxQuery: `err` is what the row scanner returned (the query itself went through)
+  userAccepts : Nat := 0      -- sqlx: number of `WithAcceptable` options installed (option i accepts exactly `.custom i`)
   deriving Repr, DecidableEq, Inhabited
 
-/-- `db.acceptable`: nil, ErrNoRows, ErrTxDone, context.Canceled, acceptableError, then the user's predicate -/
-def sqlAcceptable (q : SiteReq) : Bool :=
-  match q.err with
-  | .none | .sqlNoRows | .sqlTxDone | .ctxCanceled | .sqlAcceptable => true
-  | .custom => q.userAccepts
-  | _ => false
+/-! ### sqlx: `WithAcceptable` options, `db.acceptable`, `isScanFailed`, the local `scanFailed` -/
+
+/-- `WithAcceptable(p)` applied to a connection whose `accept` field is `acc`: the first option is stored as is,
+every further one is chained `pre(err) || p(err)` with the closure's OWN previous predicate -/
+def withAcceptable (acc : Option (ErrClass → Bool)) (p : ErrClass → Bool) : Option (ErrClass → Bool) :=
+  match acc with
+  | none => some p
+  | some pre => some fun e => pre e || p e
+
+/-- the constructor's `for _, opt := range opts { opt(conn) }` on a connection created with `accept: nil` -/
+def installOptions (ps : List (ErrClass → Bool)) : Option (ErrClass → Bool) := ps.foldl withAcceptable none
+
+/-- the options of the harness: option `i` accepts exactly `.custom i` -/
+def customOption (i : Nat) : ErrClass → Bool := fun e => e = .custom i
+
+def userOptions (n : Nat) : List (ErrClass → Bool) := (List.range n).map customOption
+
+/-- a possibly-nil predicate field applied to an error (`nil` is never called: the code tests it first) -/
+def optEval (a : Option (ErrClass → Bool)) (e : ErrClass) : Bool :=
+  match a with
+  | some f => f e
+  | none => false
+
+/-- `commonSqlConn.acceptable` with the field `accept` -/
+def dbAcceptable (accept : Option (ErrClass → Bool)) (e : ErrClass) : Bool :=
+  if e = .none ∨ e = .sqlNoRows ∨ e = .sqlTxDone ∨ e = .ctxCanceled then true
+  else if e = .sqlAcceptable then true
+  else optEval accept e
+
+/-- `db.acceptable` of a connection built by `NewSqlConn…(…, opts...)` with `q.userAccepts` options -/
+def sqlAcceptable (q : SiteReq) : Bool := dbAcceptable (installOptions (userOptions q.userAccepts)) q.err
+
+/-- orm.go `isScanFailed`: `err != nil && !errors.Is(err, context.DeadlineExceeded)` -/
+def isScanFailed (e : ErrClass) : Bool := e ≠ .none && e ≠ .ctxDeadline
+
+/-- the scanner wrapper of `queryRows` (sqlconn.go and stmt.go): `if isScanFailed(e) { scanFailed = true }` -/
+def scanFailedAfter (prev : Bool) (e : ErrClass) : Bool := if isScanFailed e then true else prev
+
+/-- value of the local `scanFailed` (declared `var scanFailed bool`) when the predicate runs: the wrapper ran iff the
+query itself went through, and then saw the request's error -/
+def scanFailedVar (q : SiteReq) : Bool := if q.fromScan then scanFailedAfter false q.err else false
 
 /-- **the predicate each site hands to the breaker** -/
 def Site.pred (s : Site) (q : SiteReq) : Bool :=
@@ -86,7 +147,7 @@ def Site.pred (s : Site) (q : SiteReq) : Bool :=
     if q.err = .ctxDeadline ∨ q.err = .brkOpen then false else codeAcceptable q.err.grpcCode
   | .redisProcess | .redisPipeline => q.err = .none ∨ q.err = .redisNil ∨ q.err = .ctxCanceled
   | .sqlx => sqlAcceptable q
-  | .sqlxQuery => q.scanFailed || sqlAcceptable q
+  | .sqlxQuery => scanFailedVar q || sqlAcceptable q
 
 /-- what the site gives back to its own caller -/
 inductive SiteRet
@@ -141,6 +202,13 @@ def Site.usesCtx : Site → Bool
 site's predicate playing the role of the custom `acceptable` -/
 def Site.outcome (s : Site) (q : SiteReq) : Outcome :=
   if q.panics then .panic else if q.err = .none then .ok else if s.pred q then .errA else .errU
+
+/-- **one request through a site's wrapper and the breaker behind it** at time `now` with draw `u`:
+`accept()` decides, the site's decision table says what runs and what is recorded, the marks go into the window -/
+def Breaker.site (b : Breaker) (now : Nat) (u : Rat) (s : Site) (q : SiteReq) : List SEv × Breaker :=
+  let r := b.accept now u
+  let evs := siteEvents s r.1 q
+  (evs, r.2.applyMarks now (smarksOf evs))
 
 /-! ## one breaker per name (core/breaker/breakers.go) -/
 
